@@ -142,6 +142,9 @@ func (vc *VC) execInstrs(b *ssa.BasicBlock, st *State) {
 			for i := len(vc.defers) - 1; i >= 0; i-- {
 				d := vc.defers[i]
 				if !d.Block().Dominates(b) {
+					if !blockReaches(d.Block(), b) {
+						continue // registered on a path that does not lead to this return
+					}
 					// conditional defer: only supported for no-op callees
 					if !vc.isNoop(&d.Call) {
 						vc.fail("conditionally executed defer of a call with effects")
@@ -968,4 +971,24 @@ func txt0(sp *FuncSpec) string {
 		t += exprString(m) + ";"
 	}
 	return t
+}
+
+// blockReaches: is there a control-flow path from block a to block b?
+func blockReaches(a, b *ssa.BasicBlock) bool {
+	seen := map[*ssa.BasicBlock]bool{a: true}
+	work := []*ssa.BasicBlock{a}
+	for len(work) > 0 {
+		x := work[len(work)-1]
+		work = work[:len(work)-1]
+		if x == b {
+			return true
+		}
+		for _, s := range x.Succs {
+			if !seen[s] {
+				seen[s] = true
+				work = append(work, s)
+			}
+		}
+	}
+	return false
 }
